@@ -406,7 +406,7 @@ def gen_c22(seed, size="quick"):
             sib_cols = [("y", "number"), ("z", "number")]
         elif shape == 5:
             k = r.randrange(0, 6)  # outermost range index scan
-            body = "e1(x,y), x > %d, e2(y,v,w)" % k
+            body = "e1(x,y), x > %d, e2(y,v,w), v >= 0" % k
             head_cols = [("id", "number"), ("x", "number"), ("w", "number")]
             head = "%s(autoinc(),x,w)"
             sib = "%s(x,y,v,w)"  # the sibling lists every body instantiation
